@@ -336,7 +336,7 @@ def run_eq(chk, F):
                    "Codes::%s does not compare equal to itself for the parameter cell(s) %s" % (v["name"], bad[:3]))
 
 
-def run(chk, F, tier):
+def run_text_structural(chk, F, tier):
     vs = variants(F)
     chk.rule("N1.display", floor=11, doc="Display arm of every Codes variant decoded (literal or Name({field}))")
     chk.rule("N1.roundtrip", floor=11, doc="FromStr(Display(V)) constructs V with the parsed number in V's field")
@@ -474,6 +474,80 @@ def run(chk, F, tier):
         chk.expect("N2.errexit", "%s#%d" % (last, x[1]), x in fail_ok and x not in fail_bad,
                    "when %s fails from_str %s" % (x[2], ("returns %s" % fail_bad[x]) if x in fail_bad else "has no path returning an error"))
 
+
+
+def run_text_semantic(chk, F):
+    """N1 / N2 decided by interpreting Display::fmt and FromStr::from_str on abstract strings (sa/strdom.py): every variant is
+    printed with its parameter as the cell variable over the whole type and the text is parsed back; malformed texts are built
+    from the names Display prints, an arbitrary unknown name and arbitrary non-numeric parameter text.  Returns False when the
+    interpreter cannot follow the code (the structural rules are used then)."""
+    import ivl, strdom
+    from ivl import AI, Agg, Ref, Frame
+    vs = variants(F)
+    db = F.one(name="fmt", trait_is="std::fmt::Display", self_is=SELF_CODES)
+    fb = F.one(name="from_str", impl_trait="FromStr", self_is=SELF_CODES)
+    UMAX = (1 << 64) - 1
+    shown = {}
+    results = []
+    try:
+        for idx, v in sorted(vs.items()):
+            def value(it, v=v, idx=idx):
+                h = Frame({"path": "code"}, {})
+                h.locals[0] = Agg("adt", CODES_ADT, v["name"], idx, [it.input(f["ty"] if f["ty"] in ivl.TY else "usize") for f in v["fields"]])
+                return Ref(h, 0, ())
+            hi = UMAX if v["fields"] else 0
+            atoms, _ = strdom.display(F, db, value, 0, hi)
+            shown[v["name"]] = atoms
+            r, it2 = strdom.parse(F, fb, strdom.SStr(atoms), 0, hi)
+            results.append((v, atoms, r, it2))
+        # malformed texts
+        bad = [("an unknown name", (strdom.Unk("name"),)), ("an unknown name with a parameter", (strdom.Unk("name"), "(", strdom.Dec(AI("usize", 0, UMAX)), ")")),
+               ("the empty text", ())]
+        for nm, atoms in sorted(shown.items()):
+            name = tuple(a for a in atoms[:next((k for k, a in enumerate(atoms) if a == "("), len(atoms))])
+            if any(isinstance(a, strdom.Dec) for a in atoms):
+                bad.append(("%s without a parameter" % nm, name))
+                bad.append(("%s with an empty parameter" % nm, name + ("(", ")")))
+                bad.append(("%s with a non-numeric parameter" % nm, name + ("(", strdom.Unk("junk"), ")")))
+                bad.append(("%s with a negative parameter" % nm, name + ("(", "-", strdom.Dec(AI("usize", 0, UMAX)), ")")))
+            else:
+                bad.append(("the parameterless %s given a parameter" % nm, name + ("(", strdom.Dec(AI("usize", 0, UMAX)), ")")))
+        rejected = []
+        for what, atoms in bad:
+            r, _ = strdom.parse(F, fb, strdom.SStr(atoms), 0, 0)
+            rejected.append((what, atoms, r))
+    except (ivl.Unsupported, ivl.Undecided, ivl.Panic, KeyError, AttributeError, IndexError, TypeError, StopIteration):
+        return False
+    chk.rule("N1.display", floor=11, doc="Display::fmt interpreted on every variant with its parameter ranging over the whole type: the text written (abstract string: characters and the decimal digits of the parameter)")
+    chk.rule("N1.roundtrip", floor=11, doc="FromStr::from_str interpreted on the text Display writes: yields the same variant with the same parameter, for every parameter value")
+    chk.rule("N1.unique", floor=11, doc="no two variants print the same text")
+    chk.rule("N2.reject", floor=20, doc="from_str interpreted on malformed texts (an arbitrary unknown name, with and without a parameter; the empty text; every parametrised name without a parameter, with an empty, a non-numeric and a negative one; every parameterless name given a parameter): an error, never some code")
+    seen = {}
+    for v, atoms, r, it2 in results:
+        var = v["name"]
+        txt = "".join(a if isinstance(a, str) else "<n>" for a in atoms)
+        okd = bool(atoms) and (sum(1 for a in atoms if isinstance(a, strdom.Dec)) == (1 if v["fields"] else 0))
+        chk.expect("N1.display", var, okd, "Display of Codes::%s writes %r, which does not carry its parameter exactly once" % (var, txt), sample={"variant": var, "text": txt})
+        code = r.fields[0] if (isinstance(r, Agg) and r.variant == "Ok" and r.fields and isinstance(r.fields[0], Agg)) else None
+        okr = code is not None and code.variant == var and len(code.fields) == len(v["fields"])
+        if okr and v["fields"]:
+            p = code.fields[0]
+            okr = isinstance(p, AI) and p.aff == (1, 0) and p.dir is not None and p.lo == 0 and p.hi >= (1 << 32)
+        chk.expect("N1.roundtrip", var, okr, "Codes::%s prints as %r, which from_str turns into %r" % (var, txt, r), sample={"variant": var, "text": txt})
+        seen.setdefault(txt, []).append(var)
+    for txt, vars_ in sorted(seen.items()):
+        for var in vars_:
+            chk.expect("N1.unique", var, len(vars_) == 1, "variants %s print the same text %r" % (vars_, txt))
+    for what, atoms, r in rejected:
+        chk.expect("N2.reject", what, isinstance(r, Agg) and r.variant == "Err", "from_str accepts %s (%r) and yields %r" % (what, strdom.SStr(atoms), r),
+                   sample={"text": repr(strdom.SStr(atoms))} if what.startswith("an unknown") else None)
+    return True
+
+
+def run(chk, F, tier):
+    vs = variants(F)
+    if not run_text_semantic(chk, F):
+        run_text_structural(chk, F, tier)
     # ---- N3 identifiers
     ids = {}
     for path, c in F.consts.items():
